@@ -37,6 +37,8 @@ def h_bio(ctx, cfg):
     pct = ctx.real("pct_lag_phase", 0, 100)
     B = ctx.real("biomass", 0, 1e5); Bns = ctx.real("biomass_ns", 0, 1e5)
     tr = ctx.real("Tr", 0, 40); trp = ctx.real("TrPot_NS", 0, 40); et0 = ctx.real("et0", 0.1, 20)
+    # INV (proved by harness HIref_current_day): the reference harvest index is positive only after yield formation started
+    ctx.assume(Implies(hi_ref > 0, dap - int(crop.HIstartCD) - 1 > 0))
     b2, bns2 = MB.biomass_accumulation(crop, dap, 0, hi_ref, pct, B, Bns, tr, trp, et0, gs)
     ctx.out("biomass", b2); ctx.out("biomass_ns", bns2)
     if not gs:
@@ -73,6 +75,7 @@ def h_hiref(ctx, cfg):
     ctx.prove("C05:0 <= reference harvest index <= HI0", And(h2 >= -1e-12, h2 <= hi0 + 1e-12, h1 >= -1e-12, h1 <= hi0 + 1e-12))
     ctx.prove("C05:reference harvest index never decreases from one day to the next", h2 >= h1 - 1e-9)
     ctx.prove("contract:pct_lag_phase in [0,100]", And(p2 >= 0, p2 <= 100 + 1e-9))
+    ctx.prove("contract:reference harvest index is zero until yield formation has started", Implies(dap - int(crop.HIstartCD) - 1 <= 0, h2 == 0))
     h3, _, _ = MH.HIref_current_day(h2, hi0, dap, 0, yf2, p2, cc, ccp, ccxw, crop, False)
     ctx.prove("C05:reference harvest index is zero outside the growing season", approx(h3, 0, 0))
     if ctx.feasible(And(h2 > 0.01, h2 < hi0 - 0.01)):
